@@ -630,7 +630,7 @@ func checkBuild(c Case, r *vf.R) error {
 }
 
 func TestBuild(t *testing.T) {
-	vf.Run(t, vf.Prop[Case]{Sub: "build", Gen: genCase, Check: checkBuild, Cases: vf.N(300, 5000)})
+	vf.Run(t, vf.Prop[Case]{Sub: "build", Gen: genCase, Check: checkBuild, Cases: vf.N(300, 2500)})
 }
 
 // ---------------- arbitrary float64 arguments: builder calls must not panic ----------------
